@@ -122,9 +122,20 @@ def _check_block(case: dict, note: Note) -> Failure | None:
     op, cl = case["open"], case["close"]
     inner, kind = case["inner"], case["inner_kind"]
     gap1, gap2 = case["gap_before"], case["gap_after"]
-    x = case["before"] + op + gap1 + inner + gap2 + cl + case["after"]
+    # tag lines may carry trailing blanks in the source (invisible to an author); the output line is compared right-stripped
+    assert (op, cl) in TAGPAIRS and inner in INNER[kind] and gap1 in ("\n", "\n\n") and gap2 in ("\n", "\n\n"), "outside the domain"
+    t1, t2 = case.get("open_trail", ""), case.get("close_trail", "")
+    assert t1 in ("", " ", "\t", "  ") and t2 in ("", " ", "\t", "  ") and not (kind == "prose" and t1 == "  "), "outside the domain"
+    mid_tag = case.get("middle")  # e.g. "{% else %}" between two enclosed blocks
+    if mid_tag:
+        second = case["inner2"]
+        x = case["before"] + op + t1 + gap1 + inner + gap2 + mid_tag + t1 + gap1 + second + gap2 + cl + t2 + case["after"]
+    else:
+        x = case["before"] + op + t1 + gap1 + inner + gap2 + cl + t2 + case["after"]
     out = opts.fmt(x, o)
-    lines = out.split("\n")
+    lines = [l.rstrip(" \t") for l in out.split("\n")]
+    if t1 or t2:
+        note.label("tag_line_trailing_blank")
     note.nontrivial = True
     note.label("block_" + kind)
     if gap1 == "\n" or gap2 == "\n":
@@ -137,6 +148,17 @@ def _check_block(case: dict, note: Note) -> Failure | None:
     if i2 <= i1:
         return Failure("tag-lines-reordered", what)
     mid = lines[i1 + 1:i2]
+    if mid_tag:
+        note.label("middle_tag")
+        if mid_tag not in mid:
+            return Failure("standalone-tag-line-lost", f"middle tag line {mid_tag!r} is not a line of its own (unindented) in the output\n{what}", {"inner_kind": kind})
+        k = mid.index(mid_tag)
+        for part, src in ((mid[:k], inner), (mid[k + 1:], case["inner2"])):
+            if len(part) < 3 or part[0] != "" or part[-1] != "" or part[1] == "" or part[-2] == "":
+                return Failure("blank-line-between-tag-and-block", f"an enclosed {kind} is not set off from the tag lines by exactly one blank line\n{what}", {"inner_kind": kind})
+            if canon.canon_out("\n".join(part[1:-1]) + "\n")[1] != canon.canon_in(src + "\n")[1]:
+                return Failure("enclosed-block-changed", f"an enclosed {kind} reads back differently\n{what}", {"inner_kind": kind})
+        return None
     if kind in ("list", "table"):
         if len(mid) < 3 or mid[0] != "" or mid[-1] != "" or mid[1] == "" or mid[-2] == "":
             return Failure("blank-line-between-tag-and-block", f"the enclosed {kind} is not set off from the tag lines by exactly one blank line\n{what}", {"inner_kind": kind})
@@ -225,7 +247,16 @@ def _block_case(draw):
     inner = draw(st.sampled_from(INNER[kind]))
     from vf import opts as vopts
 
+    extra = {}
+    if draw(st.integers(0, 2)) == 0:
+        # two trailing spaces before prose are a Markdown hard break (the tag line is then part of a paragraph): not generated
+        extra["open_trail"] = draw(st.sampled_from([" ", "\t", "  ", ""] if kind != "prose" else [" ", "\t", ""]))
+        extra["close_trail"] = draw(st.sampled_from([" ", "\t", "  ", ""]))
+    if kind in ("list", "table") and draw(st.integers(0, 3)) == 0:
+        extra["middle"] = draw(st.sampled_from(["{% else %}", "<!-- else -->", "{# or #}"]))
+        extra["inner2"] = draw(st.sampled_from(INNER[kind]))
     return {
+        **extra,
         "kind": "block", "open": op, "close": cl, "inner": inner, "inner_kind": kind,
         "gap_before": draw(st.sampled_from(["\n", "\n\n"])), "gap_after": draw(st.sampled_from(["\n", "\n\n"])),
         "before": draw(st.sampled_from(["", "Intro paragraph.\n\n", "# Title\n\n"])), "after": draw(st.sampled_from(["\n", "\n\nOutro paragraph.\n", "\n\n## Next\n"])),
